@@ -78,6 +78,10 @@ class MessageExtractor:
                 code = node.code.code
             elif isinstance(node, parsetree.Expression):
                 code = node.code.code
+                if node.escapes:
+                    # the arguments of filter calls may hold messages too;
+                    # the filters follow the expression
+                    code += "," + node.escapes
             else:
                 continue
 
